@@ -130,6 +130,30 @@ func translateFunc(fi *funcInfo) { translateFuncMode(fi, false) }
 func translateFuncChk(fi *funcInfo) { translateFuncMode(fi, true) }
 
 func translateFuncMode(fi *funcInfo, chk bool) {
+	if ts := soleTypeSwitch(fi.decl); ts != nil {
+		// one definition per case of the type switch (the dynamic dispatch itself is the Go runtime's)
+		seenDefault := false
+		for _, st := range ts.Body.List {
+			cc := st.(*ast.CaseClause)
+			if cc.List == nil {
+				seenDefault = true
+			}
+			translateFuncCase(fi, chk, ts, cc)
+		}
+		_ = seenDefault
+		return
+	}
+	translateFuncCase(fi, chk, nil, nil)
+}
+
+// typeTag: a Lean-identifier-safe name of a case type
+func typeTag(ty types.Type) string {
+	s := types.TypeString(ty, func(p *types.Package) string { return p.Name() })
+	r := strings.NewReplacer("*", "ptr_", ".", "_", "[]", "slice_", "[", "arr", "]", "_", " ", "")
+	return r.Replace(s)
+}
+
+func translateFuncCase(fi *funcInfo, chk bool, ts *ast.TypeSwitchStmt, cc *ast.CaseClause) {
 	curOwn = ownModule[fi.key]
 	defer func() { curOwn = "" }()
 	curLimb = limbMode[fi.key]
@@ -146,6 +170,35 @@ func translateFuncMode(fi *funcInfo, chk bool) {
 	t := newTr(fi, fi.pkg.TypesInfo)
 	t.chk = chk
 	t.opt = nilCompared(t.info, fi.decl.Body)
+	caseSuffix, caseParam := "", ""
+	if cc != nil {
+		subj, ok := ast.Unparen(typeSwitchSubject(ts)).(*ast.Ident)
+		if !ok || t.varOf(subj) == nil {
+			t.fail(ts, "type switch on something other than a parameter")
+		}
+		t.caseClause, t.caseSubj = cc, t.varOf(subj)
+		isParam := false
+		for _, p := range fi.params {
+			if p == t.caseSubj {
+				isParam = true
+			}
+		}
+		if !isParam {
+			t.fail(ts, "type switch on something other than a parameter")
+		}
+		switch {
+		case cc.List == nil:
+			caseSuffix, caseParam = "_default", " (tyName : String)"
+		case len(cc.List) == 1:
+			ty := t.typeOf(cc.List[0])
+			caseSuffix = "_case_" + typeTag(ty)
+			if iv, ok := t.info.Implicits[cc].(*types.Var); ok && iv != nil {
+				caseParam = " (" + t.name(iv) + " : " + leanType(ty) + ")"
+			}
+		default:
+			t.fail(cc, "type-switch case with several types")
+		}
+	}
 	sig := fi.obj.Type().(*types.Signature)
 	namedPre := ""
 	for i := 0; i < sig.Results().Len(); i++ {
@@ -223,20 +276,23 @@ func translateFuncMode(fi *funcInfo, chk bool) {
 	if t.initMode {
 		t.retTy = t.tupleType(t.initOrder())
 	}
-	lname := fi.lean
+	lname := fi.lean + caseSuffix
 	if chk {
 		t.retTy = "Bool"
-		lname = fi.lean + "_ok"
+		lname = fi.lean + caseSuffix + "_ok"
 	}
 	head := "def " + lname
 	for i, p := range fi.params {
+		if p == t.caseSubj {
+			continue // the inspected interface value: replaced by the typed case variable below
+		}
 		ty := leanType(p.Type())
 		if fi.optParam[i] {
 			ty = "(Option " + ty + ")"
 		}
 		head += " (" + t.name(p) + " : " + ty + ")"
 	}
-	head += " : " + t.retTy + " :="
+	head += caseParam + " : " + t.retTy + " :="
 	k := cont{top: true,
 		fall: func() string {
 			if chk {
@@ -249,9 +305,17 @@ func translateFuncMode(fi *funcInfo, chk bool) {
 		},
 		retTerm: func(term string) string { return term }}
 	body := initPre + namedPre + t.stmts(fi.decl.Body.List, k)
-	doc := fmt.Sprintf("/-- `%s` (%s). -/\n", fi.key, filepath.Base(fset.Position(fi.decl.Pos()).Filename))
+	what := fi.key
+	if cc != nil {
+		if cc.List == nil {
+			what += ", default clause of the type switch (tyName: name of the dynamic type)"
+		} else {
+			what += ", case " + types.ExprString(cc.List[0]) + " of the type switch"
+		}
+	}
+	doc := fmt.Sprintf("/-- `%s` (%s). -/\n", what, filepath.Base(fset.Position(fi.decl.Pos()).Filename))
 	if chk {
-		doc = fmt.Sprintf("/-- checked variant of `%s`: no run-time panic on this input. -/\n", fi.key)
+		doc = fmt.Sprintf("/-- checked variant of `%s`: no run-time panic on this input. -/\n", what)
 	}
 	d := &leanDef{name: lname, text: doc + head + "\n" + indent(body, 1) + "\n", deps: t.deps, pos: fi.decl.Pos()}
 	mk := modKey(fi.pkgdir, limbMode[fi.key])
